@@ -531,6 +531,7 @@ static Token *subst(Token *tok, MacroArg *args) {
       if (!arg)
         error_tok(tok->next, "'#' is not followed by a macro parameter");
       cur = cur->next = stringize(tok, arg->tok);
+      cur->has_space = tok->has_space;
       tok = tok->next->next;
       continue;
     }
